@@ -3,6 +3,7 @@ CONSTANTS
   MaxLen4 = 8
   MaxLen3 = 10
   MaxLen3b = 9
+  MaxCodons = 6
   RcLen = 6
   SeqLen = 4
   Families = {"translate", "seq", "load", "names", "text", "table", "ctor", "variants", "pin"}
